@@ -369,13 +369,14 @@ Definition P_eval (n : nat) : Prop :=
     interesting r ->
     exists b l', cshape l code b l' c c' /\ c <= v /\ v < c' /\ eval_post ctx sc e F c c' E stL b l' v r st'.
 
-(* the calls  f(a1, ..., an)  of functions by name (arguments: plain expressions, function names, lambdas) *)
+(* the calls  f(a1, ..., an)  of functions by name, and of computed callees  mk(1)(2)  (arguments: plain expressions,
+   function names, lambdas, calls that return functions) *)
 Definition P_ecall (n : nat) : Prop :=
-  forall g k f fsp args sp ctx c code v c' e st r st' sc l E stL F,
-    f <> pv ->
-    SyltSem.eval n e (Resolved.ECall (ERead f fsp) args sp) st = (r, st') ->
-    expression g (Resolved.ECall (ERead f fsp) args sp) ctx c = Ok ((code, v), c') ->
-    frag_expr pv sv bound fl k sc (Resolved.ECall (ERead f fsp) args sp) = true ->
+  forall g k callee args sp ctx c code v c' e st r st' sc l E stL F,
+    (forall fsp, callee <> ERead pv fsp) ->
+    SyltSem.eval n e (Resolved.ECall callee args sp) st = (r, st') ->
+    expression g (Resolved.ECall callee args sp) ctx c = Ok ((code, v), c') ->
+    frag_expr pv sv bound fl k sc (Resolved.ECall callee args sp) = true ->
     ucovers u code -> ctx_ok l F E c c' ->
     rel pv sv bound u fl W sc e st E stL ->
     interesting r ->
